@@ -6,6 +6,7 @@
 (*    "bm":[bmLocal,bmGmt],"bh":B div 100000,"bl":B mod 100000}         constructor call, starts an execution *)
 (*   {"op":"fmt","t":rel,"ns":n,"out":text,"ref":text,"slow":b,"loc":wall,"off":o,"zid":z,             *)
 (*    "got":[[part,kind,hi,lo],...]}                                      one format_timestamp call          *)
+(*   {"op":"crash","signal":n}                                         the process died in the code under test *)
 (* out = what the code rendered; ref = libc gmtime_r/localtime_r + strftime for that instant with the      *)
 (* fraction substituted (the reference the property names); loc/off/zid = libc's calendar for the instant; *)
 (* got = the numeric H M S I k l s fields as printed by the code; slow = the call went to strftime.        *)
@@ -59,11 +60,12 @@ PartShape(ks) == IF \E i \in DOMAIN ks : ks[i] \in Patched THEN "full" ELSE "coa
 ShapeOf(ts) ==
   LET r == Ctor(Kinds(ts))
   IN [p1 |-> PartShape(r.p1), fk |-> r.fk, p2 |-> IF r.fk = "none" \/ r.p2 = <<>> THEN "none" ELSE PartShape(r.p2),
+      ne |-> <<r.p1 # <<>>, r.p2 # <<>>>>,      \* an empty part never reaches strftime
       predict |-> Plain(ts) /\ ~C!MustReject(Kinds(ts))]
 
 \* ------------------------------------------------------------------ the machine
 Init == /\ l = 1 /\ ok = TRUE /\ live = FALSE /\ cfg = [mode |-> "gmt"] /\ noted = {}
-        /\ shape = [p1 |-> "coarse", fk |-> "none", p2 |-> "none", predict |-> FALSE] /\ c = <<Fresh, Fresh>>
+        /\ shape = [p1 |-> "coarse", fk |-> "none", p2 |-> "none", ne |-> <<FALSE, FALSE>>, predict |-> FALSE] /\ c = <<Fresh, Fresh>>
 
 EpochHi(s) == cfg.bh + ((cfg.bl + s) \div 100000)
 EpochLo(s) == (cfg.bl + s) % 100000
@@ -87,7 +89,7 @@ Fmt(e) ==
   LET r == FormatTs(c, shape, cfg.mode, cfg.zone, cfg.bm, e.t, e.ns)
       calOK == /\ e.loc = C!Wall(cfg.mode, cfg.zone, e.t)
                /\ cfg.mode = "local" => (e.off = C!ZoneAt(cfg.zone, e.t)[2] /\ e.zid = C!ZoneAt(cfg.zone, e.t)[3])
-      predOK == /\ e.slow = (\E p \in 1..2 : r.paths[p] \in {"rebuild", "fallback"})
+      predOK == /\ e.slow = (\E p \in 1..2 : shape.ne[p] /\ r.paths[p] \in {"rebuild", "fallback"})
                 /\ \A i \in DOMAIN e.got : GotAsModel(r, e.got[i])
   IN /\ ok' = (ok /\ live /\ e.out = e.ref)
      /\ (~(live /\ e.out = e.ref)) => PrintT("REJECT " \o ToString(l))
@@ -98,12 +100,17 @@ Fmt(e) ==
         ELSE noted' = noted
      /\ UNCHANGED <<live, cfg, shape>>
 
+\* the process died inside the code under test (abort, SIGSEGV ...): nothing was rendered for the call in progress
+Crash(e) == /\ ok' = FALSE /\ PrintT("REJECT " \o ToString(l))
+            /\ live' = FALSE /\ UNCHANGED <<cfg, shape, c, noted>>
+
 Next ==
   /\ l <= Len(TraceLog)
   /\ l' = l + 1
   /\ LET e == TraceLog[l] IN
      CASE e.op = "new" -> New(e)
        [] e.op = "fmt" -> Fmt(e)
+       [] e.op = "crash" -> Crash(e)
 
 Spec == Init /\ [][Next]_vars
 \* violated at the first line the contract does not allow (l - 1 = that line). Batch validation (TraceStrTimeBatch.cfg)
